@@ -257,6 +257,73 @@ def tour_job(job):
     return tr
 
 
+SUCC_CFG = """SPECIFICATION Spec
+CONSTANTS Ns = {ns}
+  Export = {export}
+VIEW View
+ACTION_CONSTRAINT Props
+CHECK_DEADLOCK FALSE
+"""
+
+
+def _big_tour_job(job):
+    n, lock, edges, salt = job
+    r = rng("arb-big", n, lock, salt)
+    feat = {f: 0 for f in FEATS}
+    feat["lock"] = lock
+    feat["stall"] = r.randint(0, 1)
+    cfg = {"n": n, "aw": 5, "dw": 8, "gran": 8, "feat": feat,
+           "intr": [{"feat": dict(feat, stall=r.randint(0, 1)), "ratio": 1} for _ in range(n)]}
+    walks, left = tour([(g, (req, h), g2) for (g, req, h, g2) in edges], 1, r)
+    if len(walks) != 1 or left:
+        raise common.MachineryError("big-N arbiter tour incomplete")
+    steps = []
+    for (g, (req, h), g2) in walks[0]:
+        step = {}
+        for k in range(n):
+            own = (k == g - 1)
+            # the owner holds its cycle through stb and/or lock; everybody else does whatever
+            stb = (r.choice([(1, 0), (0, 1), (1, 1)]) if lock else (1, r.randint(0, 1))) if (own and h) else \
+                  ((0, 0) if own else (r.randint(0, 1), r.randint(0, 1)))
+            step.update({f"i{k}.cyc": req[k], f"i{k}.stb": stb[0], f"i{k}.we": r.randint(0, 1),
+                         f"i{k}.adr": k + 1, f"i{k}.dat_w": r.getrandbits(8), f"i{k}.sel": 1})
+            if lock:
+                step[f"i{k}.lock"] = stb[1]
+        step["t.ack"] = 1
+        step["t.dat_r"] = r.getrandbits(8)
+        if feat["stall"]:
+            step["t.stall"] = r.randint(0, 1)
+        steps.append(step)
+    tr = record((cfg, steps))
+    tr["walk_len"] = len(steps)
+    return tr
+
+
+def big_n(run, ns):
+    """Exact successor for larger N: the abstraction (owner, request vector, owner holds) is explored
+    by TLC (WbArbiter_Succ_MC) and every one of its transitions is taken on a real N-initiator arbiter."""
+    txt = "{" + ", ".join(str(x) for x in ns) + "}"
+    res = tlc.run("WbArbiter_Succ_MC", SUCC_CFG.format(ns=txt, export="TRUE"), workers=4, timeout=900)
+    tlc.require_ok(res, "WbArbiter_Succ_MC")
+    if not res.ok:
+        raise common.MachineryError("WbArbiter successor rule fails for larger N: " + str(res.assert_payload or res.errors))
+    run.add_tlc(res, f"WbArbiter_Succ_MC N in {txt}: ExactSuccessor on the (owner, requests, hold) abstraction")
+    groups = {}
+    for e in res.edges("EDGE"):
+        h = e["hold"] if e["lock"] else 1
+        if not e["lock"] and e["hold"] == 0:
+            continue        # without LOCK the owner's cyc alone holds the bus: 'hold' is not an input
+        groups.setdefault((e["n"], e["lock"]), set()).add((e["g"], tuple(e["req"]), h, e["g2"]))
+    jobs = [(n, lock, sorted(es), 0) for (n, lock), es in sorted(groups.items())]
+    tours = pmap(_big_tour_job, jobs)
+    fails = tracecheck.validate("WbArbiter_Trace", "Arb", tours, run, f"edge tours on real arbiters with N in {txt}")
+    report_failures(run, tours, fails, "bigN")
+    for t in tours:
+        run.count(len(t["steps"]))
+    run.cov["big_n_tour"] = {"N": list(ns), "edges": sum(len(j[2]) for j in jobs),
+                             "cycles": sum(t["walk_len"] for t in tours)}
+
+
 IMPL_CFG = """SPECIFICATION Spec
 PROPERTY NoStarvation
 INVARIANT BoundedWait
@@ -413,6 +480,7 @@ def main(prop, tier):
                 run.distinct(("edge", t["key"], e["g"], e["cyc"], e["stb"], e["lock"]),
                              nontrivial=any(e["cyc"]))
     run.sample({"tour_cfg": tours[-1]["cfg"], "first_steps": tours[-1]["steps"][:2]})
+    big_n(run, (5, 6, 7, 8) if thorough else (5, 6))
     # ---- leg C: random real-size configurations
     r = rng("arb-random", prop)
     ntr, length = (600, 400) if thorough else (96, 250)
